@@ -458,8 +458,7 @@ def host_pool(domain):
 def drain(n):
     ops = [("run", 1)]
     for _ in range(n + 1):
-        ops += [("clock", TIMEOUT + 1), ("run", 1)]
-    ops += [("run", 1)]
+        ops += [("clock", TIMEOUT + 1), ("run", 2)]
     return ops
 
 
